@@ -139,6 +139,8 @@ struct JSON {
                 }
 
                 value.Reset();
+                offset = length;
+                return value;
             }
 
             ++offset;
@@ -176,6 +178,8 @@ struct JSON {
                 }
 
                 value.Reset();
+                offset = length;
+                return value;
             }
 
             ++offset;
